@@ -905,6 +905,12 @@ impl Driver {
                 let v = self.pick_up_idle()?;
                 // (the lock-step windows run with a fixed feature set)
                 let kinds = if self.profile == Profile::Lockstep { 7 } else { 8 };
+                // apply-before-persist is a leader-only switch: give it a fair share where crashes matter
+                if matches!(self.profile, Profile::Crash | Profile::Singleton | Profile::Replication) && self.rng.chance(1, 3) {
+                    if let Some(l) = self.pick_leader() {
+                        return Some(Action::Knob(l, 6, self.rng.below(1000)));
+                    }
+                }
                 Action::Knob(v, self.rng.below(kinds) as u32, self.rng.below(1000))
             }
             K_LOCAL => {
